@@ -61,6 +61,7 @@ type httpEngSeen struct {
 	body   []byte
 	up     []byte
 	spec   *httpEngRespSpec // the op this record belongs to
+	part   bool             // fault ops: the request did not arrive completely (body = what did arrive)
 }
 
 type httpEngRespSpec struct {
@@ -75,6 +76,10 @@ type httpEngRespSpec struct {
 	think   time.Duration // before the response header block
 	dnGaps  []int         // ms before each piece of the response body
 	tunGaps []int         // tunnels: u1.d1.u2.d2… (nil = one round, no idling)
+	// fault ops (eng_http_fault.go): 'd' the backend dies after faultAt bytes of its answer body, 'q' after it has
+	// read faultAt bytes of the request body (no answer), 'u' the USER dies after faultAt bytes of its request body
+	fault   byte
+	faultAt int
 }
 
 // b cut into k pieces of len(b)/k bytes, the last one takes the remainder
@@ -134,7 +139,7 @@ type httpEngState struct {
 	connSeq int
 	spec    *httpEngRespSpec
 	seenCh  chan *httpEngSeen
-	routes  map[string]httpEngRoute // mirror of successful registrations (for rt=)
+	routes  map[string]httpEngRoute  // mirror of successful registrations (for rt=)
 	hit     map[*httpEngRespSpec]int // op -> the backend that received its request (recorded BEFORE it answers)
 	conns   []net.Conn
 	page    []byte
@@ -342,22 +347,51 @@ func (st *httpEngState) backend(id, connNo int, mode string, c net.Conn) {
 			}
 			seen.hdr = append(seen.hdr, [2]string{k, v})
 		}
+		st.mu.Lock()
+		cur := st.spec
+		st.mu.Unlock()
+		// fault ops: an incomplete request is recorded too (what arrived of it)
+		partial := func(b []byte) {
+			if cur == nil || cur.fault == 0 {
+				return
+			}
+			seen.body, seen.part, seen.spec = b, true, cur
+			st.mu.Lock()
+			st.hit[cur] = id
+			st.mu.Unlock()
+			st.seenCh <- seen
+		}
+		if cur != nil && cur.fault == 'q' && (chunked || cl >= 0) {
+			// this backend dies while the request body is still coming in: faultAt wire bytes of it, no answer
+			seen.fr = "cl"
+			if chunked {
+				seen.fr = "ch"
+			}
+			_ = c.SetReadDeadline(time.Now().Add(2 * time.Second))
+			b := make([]byte, cur.faultAt)
+			n, _ := io.ReadFull(br, b)
+			partial(b[:n])
+			return
+		}
 		switch {
 		case chunked:
 			seen.fr = "ch"
 			b, err := io.ReadAll(httputil.NewChunkedReader(br))
 			if err != nil {
+				partial(b)
 				return
 			}
 			// trailer section terminator
 			if _, err := br.ReadString('\n'); err != nil {
+				partial(b)
 				return
 			}
 			seen.body = b
 		case cl >= 0:
 			seen.fr = "cl"
 			b := make([]byte, cl)
-			if _, err := io.ReadFull(br, b); err != nil {
+			if n, err := io.ReadFull(br, b); err != nil {
+				partial(b[:n])
 				return
 			}
 			seen.body = b
@@ -408,6 +442,10 @@ func (st *httpEngState) backend(id, connNo int, mode string, c net.Conn) {
 			return
 		}
 		st.seenCh <- seen
+		if spec.fault == 'd' {
+			httpEngDieInBody(c, spec)
+			return
+		}
 		if spec.think > 0 {
 			time.Sleep(spec.think)
 		}
@@ -1028,9 +1066,11 @@ func httpEngExec(tok []string) string {
 		return st.doTunnel("connect", unhx(tok[1]), "", tok[2], tok[3], tok[4], httpEngGaps(tok[5]))
 	case "silent":
 		return st.doSilent(unhx(tok[1]), unhx(tok[2]))
+	case "freq":
+		return st.doFault(tok)
 	case "plug":
 		return st.doPlug(tok)
-	case "h2c":
+	case "h2c", "fh2c":
 		return st.doH2C(tok)
 	}
 	return "bad-op"
